@@ -49,6 +49,9 @@ def observers_for(ctx, o, t):
         (r.uniform(-180, 180), r.choice([90.0, -90.0]), 0.0),
         (r.choice([180.0, -180.0]), r.uniform(-90, 90), 0.0),
     ]
+    # one station queried again at another altitude (same lon/lat, off the sub-satellite track): the altitude matters
+    slon_, slat_ = lon + r.uniform(1, 8), max(-89.0, min(89.0, lat + r.uniform(-6, 6)))
+    obs += [(slon_, slat_, 0.0), (slon_, slat_, r.uniform(2, 9)), (slon_, slat_, 0.0)]
     return obs, (lon, lat, alt)
 
 
